@@ -7,9 +7,10 @@ open Scrapli Scrapli.Log
   args       = "." (none) or r/s+r/s…       (repr / str renderings of each argument)
   record     = msg,levelname,asctime,module,funcName,lineno,host,port,uid,args
   records    = "." or record;record;…
-  variant    = three 0/1 digits: lazyAware flushOnClose portDefault
+  variant    = four 0/1 digits: lazyAware flushOnClose portDefault asciiStream
 
-  handler <variant> <buffered> <callerInfo> <logHeader> <records>   -> <file text> <errors>
+  handler <variant> <buffered> <callerInfo> <logHeader> <append> <old content> <records>  -> <file> <errors>
+        file = `fileAfter append old (fileText events)`: the whole file after the handler's life
         errors = "." or kind@offset,… (offset = UTF-8 length of the text written before the error)
   fmt <variant> <callerInfo> <logHeader> <id> <record>              -> ok <text> | err <kind>
   chan <off|w|a|bio> <old content hex> <host> <port> <uid> <ops>    -> <dest hex> <handle 0/1> <emitted records>
@@ -61,8 +62,9 @@ def decRecs (s : String) : Option (List Rec) :=
 
 def decVariant (s : String) : Option Variant :=
   match s.toList with
-  | [a, b, c] => do
-    pure ⟨← decBool (String.singleton a), ← decBool (String.singleton b), ← decBool (String.singleton c)⟩
+  | [a, b, c, d] => do
+    pure ⟨← decBool (String.singleton a), ← decBool (String.singleton b), ← decBool (String.singleton c),
+      ← decBool (String.singleton d)⟩
   | _ => none
 
 def errKind : PyErr → String
@@ -70,6 +72,7 @@ def errKind : PyErr → String
   | .typeError => "TypeError"
   | .valueError => "ValueError"
   | .scrapliException => "ScrapliException"
+  | .unicodeEncodeError => "UnicodeEncodeError"
 
 /-- errors with the number of bytes written to the file before each -/
 def errOffsets (evs : List Ev) : List String :=
@@ -78,9 +81,9 @@ def errOffsets (evs : List Ev) : List String :=
     | .line s => (acc.1 + (encode s).length + 1, acc.2)
     | .error e => (acc.1, acc.2 ++ [s!"{errKind e}@{acc.1}"])) (0, [])).2
 
-def encEvents (evs : List Ev) : String :=
+def encEvents (append : Bool) (old : Str) (evs : List Ev) : String :=
   let errs := errOffsets evs
-  s!"{encStr (fileText evs)} {if errs.isEmpty then "." else ",".intercalate errs}"
+  s!"{encStr (fileAfter append old (fileText evs))} {if errs.isEmpty then "." else ",".intercalate errs}"
 
 def decOp (s : String) : Option ChanOp :=
   match s.toList with
@@ -109,10 +112,10 @@ def exceptStr (e : Except PyErr Str) : String :=
 
 def handleLine (line : String) : String :=
   match line.trimAscii.toString.splitOn " " with
-  | ["handler", v, buffered, caller, header, recs] =>
-    match decVariant v, decBool buffered, decBool caller, decBool header, decRecs recs with
-    | some v, some b, some c, some h, some rs => encEvents (runHandler v ⟨h, c⟩ b rs)
-    | _, _, _, _, _ => "bad-op"
+  | ["handler", v, buffered, caller, header, append, old, recs] =>
+    match decVariant v, decBool buffered, decBool caller, decBool header, decBool append, decStr old, decRecs recs with
+    | some v, some b, some c, some h, some a, some o, some rs => encEvents a o (runHandler v ⟨h, c⟩ b rs)
+    | _, _, _, _, _, _, _ => "bad-op"
   | ["fmt", v, caller, header, id, rec] =>
     match decVariant v, decBool caller, decBool header, id.toNat?, decRec rec with
     | some v, some c, some h, some id, some r => exceptStr (format v ⟨h, c⟩ id r)
